@@ -113,6 +113,7 @@ package validator
 // sev(x) below abbreviates x.(map[string]any)["resultSeverity"]; SHACL = "http://www.w3.org/ns/shacl#".
 
 //@ func defineIdRecursively(node *types.ObjectMap, id string)
+//@   verify [C14]
 //@   requires node != nil
 //@   ensures [C03:only-ids] forall m map[string]any, k string :: k != "@id" ==> (has(m, k) == old(has(m, k)) && m[k] == old(m[k]))
 //@   ensures [C12:ids-are-never-removed] forall m map[string]any :: old(has(m, "@id")) ==> has(m, "@id")
@@ -125,6 +126,7 @@ package validator
 //@     invariant [C12] (forall m map[string]any :: old(has(m, "@id")) ==> has(m, "@id")) && has(old(deref(node)), "@id")
 
 //@ func buildValidation(level string, id string, raw any) types.ObjectMap
+//@   verify [C14]
 //@   requires [C17:is-map] is(raw, map[string]any) && raw.(map[string]any) != nil
 //@   ensures [C03:same-node] result == raw.(map[string]any)
 //@   ensures [C03:severity] result["resultSeverity"] == box(string, "http://www.w3.org/ns/shacl#" + strTitle(level))
@@ -136,6 +138,7 @@ package validator
 //@     invariant [C03] forall i int :: (0 <= i && i < #i) ==> (is(results[i], map[string]any) && results[i].(map[string]any) != nil)
 
 //@ func buildResults(violations []any, warnings []any, infos []any) []any
+//@   verify [C14]
 //@   requires-assumed [C03:A-OPA4] forall i int, j int :: (0 <= i && i < len(violations) && 0 <= j && j < len(violations) && i != j ==> violations[i] != violations[j]) && (0 <= i && i < len(warnings) && 0 <= j && j < len(warnings) && i != j ==> warnings[i] != warnings[j]) && (0 <= i && i < len(infos) && 0 <= j && j < len(infos) && i != j ==> infos[i] != infos[j])
 //@   requires-assumed [C03:A-OPA4] forall i int, j int :: (0 <= i && i < len(violations) && 0 <= j && j < len(warnings) ==> violations[i] != warnings[j]) && (0 <= i && i < len(violations) && 0 <= j && j < len(infos) ==> violations[i] != infos[j]) && (0 <= i && i < len(warnings) && 0 <= j && j < len(infos) ==> warnings[i] != infos[j])
 //@   requires [C03,C17:results-are-objects] forall i int :: (0 <= i && i < len(violations) ==> is(violations[i], map[string]any) && violations[i].(map[string]any) != nil) && (0 <= i && i < len(warnings) ==> is(warnings[i], map[string]any) && warnings[i].(map[string]any) != nil) && (0 <= i && i < len(infos) ==> is(infos[i], map[string]any) && infos[i].(map[string]any) != nil)
